@@ -117,6 +117,13 @@ func parseBlocks(s string) ([]blkDesc, bool) {
 
 var opTrue = []byte{txscript.OP_TRUE}
 
+// created once and handed to every chain of the process, sequentially and from the
+// concurrent instances of `par`
+var (
+	sharedSig  = txscript.NewSigCache(100)
+	sharedHash = txscript.NewHashCache(100)
+)
+
 func newParams() *chaincfg.Params {
 	p := chaincfg.RegressionNetParams
 	p.CoinbaseMaturity = 1
@@ -138,6 +145,26 @@ type world struct {
 	// abstract outpoint -> real outpoint and its value
 	ops map[int]wire.OutPoint
 	val map[int]int64
+	// serialization of every block as built (the caller's inputs must stay unchanged)
+	raw map[int][]byte
+}
+
+// inputsChanged counts inputs handed to btcd that no longer have the value they were created with.
+func (w *world) inputsChanged() int {
+	n := 0
+	for id, want := range w.raw {
+		var buf bytes.Buffer
+		if err := w.byID[id].MsgBlock().Serialize(&buf); err != nil || !bytes.Equal(buf.Bytes(), want) {
+			n++
+		}
+	}
+	ref := newParams()
+	if w.params.Name != ref.Name || w.params.Net != ref.Net || w.params.CoinbaseMaturity != ref.CoinbaseMaturity ||
+		w.params.PowLimitBits != ref.PowLimitBits || *w.params.GenesisHash != *ref.GenesisHash ||
+		len(w.params.Checkpoints) != len(ref.Checkpoints) || w.params.SubsidyReductionInterval != ref.SubsidyReductionInterval {
+		n++
+	}
+	return n
 }
 
 func solve(h *wire.BlockHeader, limit *chaincfg.Params) {
@@ -153,7 +180,7 @@ func solve(h *wire.BlockHeader, limit *chaincfg.Params) {
 
 func buildWorld(descs []blkDesc) *world {
 	w := &world{params: newParams(), descs: descs, byID: map[int]*btcutil.Block{}, height: map[int]int32{0: 0},
-		parent: map[int]int{}, idOf: map[chainhash.Hash]int{}, ops: map[int]wire.OutPoint{}, val: map[int]int64{}}
+		parent: map[int]int{}, idOf: map[chainhash.Hash]int{}, ops: map[int]wire.OutPoint{}, val: map[int]int64{}, raw: map[int][]byte{}}
 	gen := btcutil.NewBlock(w.params.GenesisBlock)
 	w.byID[0] = gen
 	w.idOf[*gen.Hash()] = 0
@@ -163,7 +190,8 @@ func buildWorld(descs []blkDesc) *world {
 		height := w.height[d.parent] + 1
 		w.height[d.id] = height
 		w.parent[d.id] = d.parent
-		times[d.id] = times[d.parent] + 600
+		// different per block so that two branches never share timestamps / median times
+		times[d.id] = times[d.parent] + 600 + int64(d.id%7)*13
 		// coinbase
 		cbScript, _ := txscript.NewScriptBuilder().AddInt64(int64(height)).AddInt64(int64(d.id) + 1000).Script()
 		cb := wire.NewMsgTx(1)
@@ -208,8 +236,20 @@ func buildWorld(descs []blkDesc) *world {
 		blk := btcutil.NewBlock(mb)
 		w.byID[d.id] = blk
 		w.idOf[*blk.Hash()] = d.id
+		var buf bytes.Buffer
+		mb.Serialize(&buf)
+		w.raw[d.id] = buf.Bytes()
 	}
 	return w
+}
+
+func (w *world) numTx(id int) int {
+	for _, d := range w.descs {
+		if d.id == id {
+			return 1 + len(d.spends)
+		}
+	}
+	return 1
 }
 
 func (w *world) heightOf(id int) int {
@@ -511,10 +551,10 @@ func (w *world) newChain(db database.DB, c cfg) (*blockchain.BlockChain, error) 
 	}
 	return blockchain.New(&blockchain.Config{
 		DB:               db,
-		ChainParams:      newParams(),
+		ChainParams:      w.params, // one object per world, reused by every life (inputs are values)
 		TimeSource:       blockchain.NewMedianTime(),
-		SigCache:         txscript.NewSigCache(100),
-		HashCache:        txscript.NewHashCache(100),
+		SigCache:         sharedSig,
+		HashCache:        sharedHash,
 		UtxoCacheMaxSize: max,
 		Prune:            c.prune,
 	})
@@ -834,6 +874,7 @@ func runLife(root string, startDir string, w *world, c cfg, ops []string) *life 
 			l.snapChanged++
 		}
 	}
+	l.snapChanged += w.inputsChanged()
 	return l
 }
 
@@ -1010,8 +1051,21 @@ func reopenV(root, imgDir string, w *world, c cfg, acked []int, ops []string, px
 			sj++
 		}
 	}
+	// heights and coinbase flags of the unspent entries (entries differ per block and per transaction)
+	hsum, ncb := 0, 0
+	if utxo != "-" && utxo != "err" {
+		for _, x := range strings.Split(utxo, ".") {
+			o, _ := strconv.Atoi(x)
+			if e, err := ch.FetchUtxoEntry(w.ops[o]); err == nil && e != nil {
+				hsum += int(e.BlockHeight())
+				if e.IsCoinBase() {
+					ncb++
+				}
+			}
+		}
+	}
 	bs := ch.BestSnapshot()
-	out := fmt.Sprintf("r=ok,%d,%s,%s,%d mc=%s bb=%d sj=%d bs=%d/%d/%d", tip, strings.Join(chain, "."), utxo, missing, joinOr(mc), bb, sj,
+	out := fmt.Sprintf("r=ok,%d,%s,%s,%d uh=%d/%d mc=%s bb=%d sj=%d bs=%d/%d/%d", tip, strings.Join(chain, "."), utxo, missing, hsum, ncb, joinOr(mc), bb, sj,
 		bs.Height, bs.NumTxns, bs.TotalTxns)
 	for _, op := range deliveries(ops) {
 		id, _ := strconv.Atoi(op[1:])
@@ -1023,7 +1077,17 @@ func reopenV(root, imgDir string, w *world, c cfg, acked []int, ops []string, px
 	// property-level verdicts
 	v.tipActive = px.prev[tip]
 	wantU, wantTotal := w.foldUtxo(tip)
-	v.utxoFold = utxo == wantU
+	wantH, wantCB := 0, 0
+	if wantU != "-" {
+		for _, x := range strings.Split(wantU, ".") {
+			o, _ := strconv.Atoi(x)
+			wantH += w.heightOf(o / opsPerBlock)
+			if o%opsPerBlock == 0 {
+				wantCB++
+			}
+		}
+	}
+	v.utxoFold = utxo == wantU && hsum == wantH && ncb == wantCB
 	v.indexKnows = missing == 0
 	onChain := map[string]bool{}
 	for _, x := range strings.Split(w.pathStr(tip), ".") {
@@ -1034,7 +1098,7 @@ func reopenV(root, imgDir string, w *world, c cfg, acked []int, ops []string, px
 		mcOK = mcOK && onChain[x]
 	}
 	v.apis = strings.Join(chain, ".") == w.pathStr(tip) && mcOK && int(bs.Height) == w.heightOf(tip) &&
-		int(bs.TotalTxns) == wantTotal && sj <= bb
+		int(bs.TotalTxns) == wantTotal && int(bs.NumTxns) == w.numTx(tip) && sj <= bb && (c.prune != 0 || sj == bb-1)
 	fu, _ := w.foldUtxo(ft)
 	v.converged = ft == px.specFin && futxo == fu
 	for _, id := range ids {
@@ -1754,6 +1818,42 @@ func wlPruneEdge(r *core.Rand, flushAfter int, n int) *gw {
 	return g
 }
 
+// addSpending creates a block on parent that spends exactly the given outpoints (valid or not).
+func (g *gw) addSpending(parent int, spends ...int) int {
+	id := g.nextID
+	g.nextID++
+	d := blkDesc{id: id, parent: parent, spends: spends}
+	g.descs = append(g.descs, d)
+	g.byID[id] = d
+	return id
+}
+
+// a reorganisation back to a branch whose first blocks are already validated, with a
+// double spend at position pos (2..) of the attach list: the block there spends an
+// output that the already-valid first attach block spent.
+func wlAttachDoubleSpend(r *core.Rand, pos int) *gw {
+	g := newGW(r)
+	a1 := g.addSpending(0)
+	g.deliver(a1)
+	a2 := g.addSpending(a1, a1*opsPerBlock) // spends the coinbase of a1
+	g.deliver(a2)
+	b := a1
+	for i := 0; i < 2; i++ { // b2, b3: the node reorganises to the b branch, a2 stays valid in the index
+		b = g.add(b, 0, 0)
+		g.deliver(b)
+	}
+	a := a2
+	for i := 2; i <= pos+1; i++ { // attach list on the way back: a2 (valid), a3, a4 …
+		if i == pos {
+			a = g.addSpending(a, a1*opsPerBlock) // double spend of a1's coinbase
+		} else {
+			a = g.add(a, 0, 1)
+		}
+		g.deliver(a)
+	}
+	return g
+}
+
 func (P) Generate(g *core.Gen) {
 	// emit one workload: first-level images with the given stride, a few torn
 	// variants, and second-level images (crash, reopen, re-feed, crash again;
@@ -1876,6 +1976,7 @@ func (P) Generate(g *core.Gen) {
 		emit("prune", 0, "2000:1000", wlLong(r, 11, true), 9, 1, 2)
 		emit("prune-reorg", r.Intn(2), "2000:1000", wlPruneReorg(r, 8+r.Intn(3), 1+r.Intn(2), 1, 1+r.Intn(2)), 4, 0, 0)
 		emit("prune-edge", 1, "2000:1000", wlPruneEdge(r, 15, 24), 5, 0, 0)
+		emit("attach-dspend", r.Intn(2), "0", wlAttachDoubleSpend(r, 2+r.Intn(2)), 3, 0, 0)
 	} else {
 		for i := 0; i < 8; i++ {
 			emit("linear", i%2, "0", wlLinear(r, 2+r.Intn(5)), 1, 1, 3)
@@ -1916,6 +2017,9 @@ func (P) Generate(g *core.Gen) {
 		}
 		emitSwitch("cache-switch", "1>0", wlReorg(r, 3, 1, 4, false, -1), 3)
 		emitSwitch("cache-switch", "1>0>1", wlReorg(r, 2, 0, 4, true, -1), 3)
+		for pos := 2; pos <= 4; pos++ {
+			emit("attach-dspend", pos%2, "0", wlAttachDoubleSpend(r, pos), 1, 1, 2)
+		}
 		for _, fa := range []int{8, 9, 10, 11, 14, 15, 16, 17} {
 			emit("prune-edge", 1, "2000:1000", wlPruneEdge(r, fa, 24), 2, 1, 3)
 		}
